@@ -133,19 +133,36 @@ def run_case(kind, p):
         a = run_full(frame, pattern, peaks[ok], b=p["b"])
         b = run_full(rolled, pattern, peaks[ok] + t, b=p["b"])
         b = (b[0] - t, b[1] - t.astype(np.float32), b[2], b[3])
-        near_tie = np.abs(np.asarray(a[2]) - np.asarray(b[2])) > 1e-4 * np.maximum(1, np.abs(a[2]))
-        msgs += same(a, b, f"full, cyclic shift {t.tolist()}", exact=False)
-        if not near_tie.any() and p["frame_kind"] != "const" and not np.array_equal(a[0], b[0]):
-            # centres may only differ if two maxima are tied within float32 rounding
-            d = np.argwhere(np.any(a[0] != b[0], axis=1)).ravel()
-            if np.any(np.abs(np.asarray(a[3])[d]) > 1e-3):
-                msgs.append(f"full, cyclic shift {t.tolist()}: centres differ {a[0][d[0]].tolist()} vs {b[0][d[0]].tolist()}")
+        # a centre may differ between the two runs only where the maximum is tied within float32 rounding, judged on the
+        # independent float64 reference map (no FFT); such entries are compared by this rule only
+        import refimpl
+        keep = np.ones(len(a[0]), dtype=bool)
+        pk = peaks[ok]
+        for j in np.flatnonzero(np.any(np.asarray(a[0]) != np.asarray(b[0]), axis=1)):
+            m_ = refimpl.ref_maps(frame.astype(np.float64), pattern, pk[j:j + 1], "full")[0]
+            rel = (np.asarray(b[0][j]) - pk[j] + c).astype(int)
+            if np.all(rel >= 0) and np.all(rel < 2 * c) and m_[rel[0], rel[1]] >= m_.max() - 2e-4 * max(1.0, abs(m_.max())):
+                keep[j] = False
+            else:
+                msgs.append(f"full, cyclic shift {t.tolist()}: centres differ {a[0][j].tolist()} vs {b[0][j].tolist()}")
+        if keep.any():
+            msgs += same(tuple(np.asarray(x)[keep] for x in a), tuple(np.asarray(x)[keep] for x in b),
+                         f"full, cyclic shift {t.tolist()}", exact=False)
     # --- transposition -----------------------------------------------------------------------------
     for nm, runner in (("fast", impl.run_fast), ("full", run_full)):
         a = runner(frame, pattern, peaks, b=p["b"])
         b = runner(np.ascontiguousarray(frame.T), pattern, peaks[:, ::-1].copy(), b=p["b"])
         b = (b[0][:, ::-1], b[1][:, ::-1], b[2], b[3])
         clear = np.asarray(a[3]) > 1e-3            # a unique maximum (ties break in row-major order)
+        # ... and unique beyond float32 rounding: where the two runs report different centres and the independent float64
+        # reference map (no FFT) has, at the other centre, a value within float32 rounding of its maximum, the maximum is
+        # tied for the implementation and either answer is right (compared by this rule only)
+        import refimpl
+        for j in np.flatnonzero(clear & np.any(np.asarray(a[0]) != np.asarray(b[0]), axis=1)):
+            m_ = refimpl.ref_maps(frame.astype(np.float64), pattern, peaks[j:j + 1], nm)[0]
+            rel = (np.asarray(b[0][j]) - peaks[j] + c).astype(int)
+            if np.all(rel >= 0) and np.all(rel < 2 * c) and m_[rel[0], rel[1]] >= m_.max() - 2e-4 * max(1.0, abs(m_.max())):
+                clear[j] = False
         if clear.any():
             msgs += same(tuple(np.asarray(x)[clear] for x in a), tuple(np.asarray(x)[clear] for x in b),
                          f"{nm}, transposed", exact=False, tol=2e-4)
